@@ -6,6 +6,7 @@ from absint import TRUE, FALSE, UNK
 from positions import Pos, overlap
 import kinds as K
 import pathrules as P
+import mirflow as MF
 
 EXPLANATION = (
     "Checker/evaluator agreement, decided from the typed HIR of oal-compiler: for every syntactic position at which the "
@@ -29,9 +30,26 @@ TRUSTED = ["frozen 3-row correspondence LiteralKind<->TokenValue (kinds.py), val
 GENERAL_EVAL = ('eval::eval_any', 'eval::eval_terminal', 'eval::eval_variable')
 
 
+def _is_ok_ctor(x):
+    return x is not None and x['k'] == 'call' and variant_of(x['f']) == 'Ok'
+
+
 def branch_is_error(e):
-    """does the branch construct an error result (`return Err(..)`, a tail `Err(..)`) or return early?"""
-    return e is not None and any(x['k'] == 'ret' or (x['k'] == 'call' and variant_of(x['f']) == 'Err') for x, _ in hir_walk(e))
+    """does the branch construct an error result (`return Err(..)`, a tail `Err(..)`) or return early with something that
+    is not a plain `Ok(..)`?"""
+    if e is None:
+        return False
+    for x, _ in hir_walk(e):
+        if x['k'] == 'call' and variant_of(x['f']) == 'Err':
+            return True
+        if x['k'] == 'ret' and not _is_ok_ctor(x.get('e') or x.get('value') or x.get('expr')):
+            return True
+    return False
+
+
+def branch_is_success_return(e):
+    """`return Ok(..)` and nothing that builds an error"""
+    return e is not None and not branch_is_error(e) and any(x['k'] == 'ret' and _is_ok_ctor(x.get('e') or x.get('value') or x.get('expr')) for x, _ in hir_walk(e))
 
 
 def _if_polarity(if_e, neg):
@@ -42,6 +60,8 @@ def _if_polarity(if_e, neg):
         return neg % 2 == 1        # condition true -> error
     if else_err and not then_err:
         return neg % 2 == 0        # condition true -> success
+    if if_e.get('else') is None and branch_is_success_return(if_e['then']):
+        return neg % 2 == 0        # `if cond { return Ok(()) }` in front of the error
     return None
 
 
@@ -244,37 +264,64 @@ def closure_sets(c, T, ck):
 
 
 def marker_guard_includes_reference(facts):
-    """False when every construction of the in-progress marker (Expr::Recursion) in eval_declaration is guarded by
-    `is_recursive` alone (a match-arm guard or the then-branch of an `if` without `||`): then only the declarations that
-    cycles_check marked can evaluate to the marker.  True when the nearest guard that mentions `is_recursive` also admits
-    `is_reference()` (`ident.is_reference() || core.is_recursive`), or when the shape cannot be read."""
-    fn = facts.fn('oal_compiler::eval::eval_declaration')
-    if fn is None or not fn.hir:
+    """False when every construction of the in-progress marker (Expr::Recursion) in eval_declaration can be reached only
+    through the true edge of a test of the `is_recursive` flag alone: then only the declarations that cycles_check marked
+    can evaluate to the marker.  True when it can also be reached otherwise (`ident.is_reference() || core.is_recursive`
+    leads to it on the first operand alone), or when the shape cannot be read.  Decided on the MIR of the function with
+    its new private helpers spliced in, over edges (the flag may be read once into a local, or handed to a helper)."""
+    fn0 = facts.fn('oal_compiler::eval::eval_declaration')
+    if fn0 is None or not fn0.mir:
         return True
-    verdicts = []
-    for f2 in facts.family(fn):
-        if not f2.hir:
-            continue
-        for e, anc in hir_walk(f2.hir['body']):
-            isctor = (e['k'] == 'call' and (callee_def(e) or '').endswith('Expr::Recursion')) or \
-                     (e['k'] == 'path' and variant_of(e.get('p')) == 'Recursion')
-            if not isctor:
+    fn = facts.normalised(fn0)
+    idx = MF.defs_index(fn)
+    sites = set()
+    for b, blk in fn.blocks():
+        for st in blk['stmts']:
+            if st['s'] == 'assign' and st['rv']['r'] == 'aggr' and st['rv'].get('variant') == 'Recursion' and (st['rv'].get('adt') or '').endswith('Expr'):
+                sites.add(b)
+    if not sites:
+        return True
+
+    def reads_flag_only(l, seen=()):
+        """the local is (a copy of) the is_recursive field, nothing else"""
+        if l in seen:
+            return False
+        defs = idx.get(l, [])
+        if not defs:
+            return False
+        for kind, bi, x in defs:
+            if kind != 'assign' or x['rv']['r'] != 'use':
+                return False
+            op = x['rv']['op']
+            if 'l' not in op:
+                return False
+            fp = MF.field_path(op)
+            if fp and fp[-1] == 'is_recursive':
                 continue
-            verdict = None
-            for parent, lab in reversed(anc):
-                cond = None
-                if isinstance(lab, tuple) and lab[0] == 'arm' and lab[1]['guard'] is not None:
-                    cond = lab[1]['guard']
-                elif isinstance(lab, tuple) and lab[0] == 'then':
-                    cond = lab[1]['cond']
-                if cond is None:
-                    continue
-                txt = json.dumps(cond)
-                if '"is_recursive"' in txt:
-                    verdict = ('"Or"' in txt) or ('is_reference' in txt)
-                    break
-            verdicts.append(True if verdict is None else verdict)
-    return True if not verdicts else any(verdicts)
+            if op['proj'] or not reads_flag_only(op['l'], seen + (l,)):
+                return False
+        return True
+    cut = set()          # edges (switch block, target) taken when the flag is set
+    for b, blk in fn.blocks():
+        sw = blk['term']
+        if sw['t'] == 'switch' and 'l' in sw['discr'] and not sw['discr']['proj'] and reads_flag_only(sw['discr']['l']):
+            zero = {x for v, x in sw['targets'] if v == '0'}
+            for x in fn.succ(b):
+                if x not in zero:
+                    cut.add((b, x))
+    if not cut:
+        return True
+    seen = set()
+    stack = [0]
+    while stack:
+        b = stack.pop()
+        if b in seen:
+            continue
+        seen.add(b)
+        for x in fn.succ(b):
+            if (b, x) not in cut:
+                stack.append(x)
+    return bool(sites & seen)
 
 
 def r1_agree(c, facts, T):
